@@ -593,7 +593,7 @@ def run(tier: str, seed: int) -> Result:
     t_end = time.monotonic() + budget
     per_cfg = []
     for i, (sd, depth, bound) in enumerate(cfgs):
-        left = max(5.0, (t_end - time.monotonic()) / (len(cfgs) - i))
+        left = max(5.0, (t_end - time.monotonic()) / min(3, len(cfgs) - i))  # most configurations finish far below their share: a hungry one may take a third of what is left
         from .. import world as _world
 
         _world.DEFAULT_DEBUG[0] = sd.startswith("debug:")  # same exploration with debug logging requested on the connection
